@@ -34,6 +34,16 @@ def r1(ctx):
     prov = Prov(b, facts)
     g = Guards(b, prov, facts)
     rem = [(bi, t) for bi, t in b.calls() if c13.classify(t) and c13.classify(t)[2] == "active_challenges.remove"]
+    est0 = [(bi, t) for bi, t in b.calls() if (t.callee() or "") == S + "establish_from_challenge"]
+    if est0:
+        # the challenge handed to establish_from_challenge must come out of a *removal* that every path to the call has passed:
+        # a peek (`get`, `get(..).cloned()`) leaves it outstanding, and the same handshake can be replayed while it is
+        bad = [bi for bi, _ in est0 if not must_pass(b, [bi], via_blocks=[x for x, _ in rem])]
+        ch_src = [fmt_short(prov.operand(t.args[3])) for _, t in est0]
+        if bad or not rem:
+            rule.fail("auth|challenge-not-consumed", "handle_auth_message verifies a handshake against a challenge it has not taken out of active_challenges (%s): "
+                      "acceptance does not consume the challenge, a replay of the same handshake is accepted again while it is outstanding" % ch_src[:1], loc=b.loc(est0[0][1].line))
+            return rule
     if len(rem) != 1:
         raise AnchorError("handle_auth_message: expected exactly one active_challenges.remove, found %d" % len(rem))
     rbi, rt = rem[0]
